@@ -703,6 +703,19 @@ impl ClusterState {
     pub fn verif_tablet_tables(&self) -> Vec<(String, String, usize)> {
         crate::routing::locator::tablets::verif::info_table_sizes(&self.locator.tablets)
     }
+
+    /// The body of the (unstable-feature) `compute_token_preserialized`: table lookup, then the
+    /// table's partitioner on the given serialized key, no count / type check.
+    #[allow(missing_docs)]
+    pub fn verif_compute_token_preserialized(
+        &self,
+        keyspace: &str,
+        table: &str,
+        serialized_partition_key: &SerializedValues,
+    ) -> Result<Token, ClusterStateTokenError> {
+        let table_meta = self.lookup_table_meta(keyspace, table)?;
+        self.do_compute_token(table_meta, serialized_partition_key)
+    }
 }
 
 /// Additional API for interop-based code.
